@@ -16,7 +16,8 @@ PROP = 'C14'
 RULE = ('cells = (column wavelet, row wavelet, mode, J, HxW) with ordered pairs of distinct wavelets '
         'of different filter length, 5 modes, J 1..3, non-square shapes; per cell impulse batch and '
         'dense inputs for the forward, one-hot / dense pyramids for the inverse, plus the 2-tuple and '
-        'name forms; distinct by (cell, direction, form, input kind); non-trivial when input not zero')
+        'name forms; distinct by (cell, direction, form, input kind); non-trivial when input not zero'
+        '; every module also built from the same four filters held as lists, (L,1) column arrays, a list instead of a tuple and (equal-length pairs, one cell in seven) one stacked (4,L) array: prepared buffers equal to the tuple form (M-FORM); caller arrays edited after construction (M-ALIAS)')
 ASSUMPTIONS = ['pywt.wavedec2/waverec2 with a per-axis wavelet tuple is the specification', 'float64']
 TIMEOUT = {'quick': 900, 'thorough': 3000}
 WORKER_BUDGET = {'quick': 600, 'thorough': 2400}
